@@ -55,6 +55,10 @@ def run_cases(unit_name, cases, opts, world=None):
         try:
             p = Path(); p.trace = Const('trace0', Trace)
             f, args, kws = case.setup(eng, p)
+            if getattr(case, 'path', None) is not None:
+                p = case.path
+            if isinstance(f, Partial) and isinstance(f.fn, Closure):
+                rep.functions.append(fn_info(w, f.fn))
             if isinstance(f, Closure):
                 rep.functions.append(fn_info(w, f))
             req = list(case.requires())
